@@ -60,6 +60,7 @@ type Contract struct {
 }
 
 type SetClause struct {
+	Key   SExpr // non-nil: "sets G[key] = e"
 	Ghost string
 	Expr  SExpr
 	Cond  SExpr // may be nil
@@ -306,6 +307,15 @@ func (cs *ContractSet) addClause(c *Contract, w, rest string, line int, file str
 			return fmt.Errorf("sets: want 'sets G = expr [if cond]'")
 		}
 		sc := &SetClause{Ghost: strings.TrimSpace(kv[0]), Text: rest}
+		if k := strings.Index(sc.Ghost, "["); k > 0 && strings.HasSuffix(sc.Ghost, "]") {
+			// sets G[key] = expr: one element of a ghost map
+			ke, err := parseSpec(sc.Ghost[k+1 : len(sc.Ghost)-1])
+			if err != nil {
+				return err
+			}
+			sc.Key = ke
+			sc.Ghost = sc.Ghost[:k]
+		}
 		rhs := kv[1]
 		if k := strings.Index(rhs, " if "); k >= 0 {
 			ce, err := parseSpec(rhs[k+4:])
